@@ -505,7 +505,7 @@ def validate(results, L, shards=None):
         meta = os.path.join(A.BUILD, "tlc", tag)
         shutil.rmtree(meta, ignore_errors=True)
         os.makedirs(meta, exist_ok=True)
-        cmd = ["java", "-XX:+UseParallelGC", "-Xmx3g", "-Xss64m", "-cp", A.JAVA_CP, "tlc2.TLC", "-workers", "1", "-metadir", meta,
+        cmd = ["java", "-XX:+UseParallelGC", "-Xmx3g", "-Xss64m", "-cp", A.JAVA_CP, "tlc2.TLC", "-noGenerateSpecTE", "-workers", "1", "-metadir", meta,
                "-config", os.path.join(A.SPEC, "ApiTrace.cfg"), os.path.join(A.SPEC, "ApiTrace.tla")]
         p = subprocess.Popen(cmd, cwd=A.SPEC, env=dict(os.environ, TRACE=tr), stdout=subprocess.PIPE, stderr=subprocess.STDOUT, text=True)
         procs.append((p, tr, meta, n))
